@@ -244,6 +244,9 @@ class PixCoord:
         cosa, sina = np.cos(angle), np.sin(angle)
         rotation_matrix = np.array([[cosa, -sina], [sina, cosa]])
 
-        vec = np.matmul(rotation_matrix, vec)
+        # contract the matrix with the leading (x, y) axis; unlike matmul
+        # this is the per-point rotation for coordinate arrays of any
+        # dimension
+        vec = np.tensordot(rotation_matrix, vec, axes=1)
 
         return self.__class__(center.x + vec[0], center.y + vec[1])
